@@ -1,7 +1,7 @@
 SPECIFICATION Spec
 CONSTANTS
-  Dev <- mc_NoDev
+  Dev <- mc_DevName
   Vals <- mc_Vals
   Names <- mc_Names
-  MaxPos = 1
-INVARIANT Inv
+  MaxPos = 0
+INVARIANT InvNames
